@@ -69,6 +69,25 @@ def invalid_series(draw):
   return {'kind': 'invalid', 'raw': raw}
 
 
+@st.composite
+def invalid_openmetrics(draw):
+  """OpenMetrics-syntax names that violate the tag rules: one pair of an otherwise well-formed tag list is broken
+  (empty tag, empty value, '=' inside the tag, junk after the closing quote, prohibited character, value starting
+  with ~), at any position."""
+  pairs = [[draw(st.sampled_from(['k', 'env', 'a-b', 'x1'])) + str(i), draw(st.sampled_from(['v', 'prod', 'a b', 'x,y', 'q}']))]
+           for i in range(draw(st.integers(1, 4)))]
+  pos = draw(st.integers(0, len(pairs) - 1))
+  how = draw(st.integers(0, 6))
+  if pos == len(pairs) - 1 and how in (3, 6):
+    how = draw(st.sampled_from([0, 1, 2, 4, 5]))    # the string has to keep its OpenMetrics shape (end in "})
+  rendered = ['%s="%s"' % (k, om_escape(v)) for k, v in pairs]
+  k, v = pairs[pos]
+  rendered[pos] = {0: '="%s"' % v, 1: '%s=""' % k, 2: '%s=x="%s"' % (k, v), 3: '%s="%s"x' % (k, v), 4: '%s!="%s"' % (k, v),
+                   5: '%s="~%s"' % (k, v), 6: '%s="%s' % (k, v)}[how]
+  name = draw(st.sampled_from(['a', 'cpu.load', 'm-1', 'é']))
+  return {'kind': 'invalid', 'raw': name + '{' + ','.join(rendered) + '}', 'syntax': 'openmetrics'}
+
+
 def split_normal_form(n):
   """Independent splitter: name;k=v;k=v -> (name, {k: v}) or None."""
   parts = n.split(';')
@@ -134,7 +153,7 @@ def execute(ctx, case):
     if stored != [raw] or relayed != [raw]:
       ctx.fail('C18:rejected-name-altered', 'rejected name %r was stored as %r and relayed as %r' % (raw, stored, relayed), case, 'as-received')
       return
-    ctx.note(case, nontrivial=True, classes=['invalid'])
+    ctx.note(case, nontrivial=True, classes=['invalid', 'invalid:' + case.get('syntax', 'carbon')])
     return
   name = case['name']
   tags = [tuple(t) for t in case['tags']]
@@ -220,3 +239,4 @@ def execute(ctx, case):
 def run(ctx):
   run_given(ctx, valid_series(), execute, ctx.scale(3000, 12000), salt=1)
   run_given(ctx, invalid_series(), execute, ctx.scale(600, 2500), salt=2)
+  run_given(ctx, invalid_openmetrics(), execute, ctx.scale(500, 2500), salt=3)
